@@ -37,9 +37,9 @@ func VerifNewSendState(size int64, chunkSize uint32) *VerifSendState {
 func (v *VerifSendState) TotalChunks() uint32 { return v.s.totalChunks }
 
 func (v *VerifSendState) Take() (uint32, uint32, bool) { return v.s.nextChunkToSend() }
-func (v *VerifSendState) Finish() bool               { return v.s.markChunkDone() }
-func (v *VerifSendState) TryEnd() bool               { return v.s.trySendEnd() }
-func (v *VerifSendState) Ready()                     { v.s.setReady(nil) }
+func (v *VerifSendState) Finish() bool                 { return v.s.markChunkDone() }
+func (v *VerifSendState) TryEnd() bool                 { return v.s.trySendEnd() }
+func (v *VerifSendState) Ready()                       { v.s.setReady(nil) }
 func (v *VerifSendState) IsReady() bool {
 	select {
 	case <-v.s.readyCh:
@@ -131,7 +131,9 @@ const (
 	VerifMaxRelPath         = maxRelPathLength
 )
 
-func VerifReadControlMessage(r io.Reader) (byte, any, error) { return readControlMessage(verifRW{r: r}) }
+func VerifReadControlMessage(r io.Reader) (byte, any, error) {
+	return readControlMessage(verifRW{r: r})
+}
 func VerifReadControlHeader(r io.Reader) (manifest.Manifest, error) {
 	return readControlHeader(verifRW{r: r})
 }
@@ -165,8 +167,17 @@ func VerifWriteRecord(w io.Writer, msg any) error {
 	return io.ErrUnexpectedEOF
 }
 
-func VerifValidateRelPath(p string) error { return validateRelPath(p) }
-func VerifFileKey(item manifest.FileItem) uint64 { return fileKeyForItem(item) }
+// VerifHashFileChunk hashes one chunk the way the resume verification does.
+func VerifHashFileChunk(path string, idx uint32, chunkSize uint32, size int64, alg string) (uint64, error) {
+	a, err := parseHashAlg(alg)
+	if err != nil {
+		return 0, err
+	}
+	return hashFileChunk(path, idx, chunkSize, size, a)
+}
+
+func VerifValidateRelPath(p string) error          { return validateRelPath(p) }
+func VerifFileKey(item manifest.FileItem) uint64   { return fileKeyForItem(item) }
 func VerifSidecarID(item manifest.FileItem) string { return sidecarIdentifier(item) }
 
 // VerifSidecarBits returns the set chunk indices of a loaded sidecar.
